@@ -51,7 +51,7 @@ Theorem C15_decorator_echo : forall (d : decorator) (rest : list token),
 Proof. exact decorator_echo_parses. Qed.
 Print Assumptions C15_decorator_echo.
 
-(* Definitions: the echo of a `let`, `unit` or `fn` definition (Syntax/DefEcho.v: its decorators one per
+(* Definitions: the echo of a `let`, `unit`, `fn`, `dimension` or `struct` definition (Syntax/DefEcho.v: its decorators one per
    line, the name, the readable types, the echo of the body and of the where-clauses) is accepted by the
    parser and read back as that definition: same name, same types, the SAME decorators, the tree the
    body's echo denotes.  `echoable` = printable expressions, well-formed readable types, decorators the
